@@ -326,3 +326,66 @@ def run(prog: Program, chk: Check) -> None:
     guard(chk, r08_d, prog, chk)
     guard(chk, r08_f, prog, chk)
     guard(chk, r08_g, prog, chk)
+    guard(chk, r08_h, prog, chk)
+
+
+# ------------------------------------------------------------------- R08.h
+def r08_h(prog: Program, chk: Check) -> None:
+    chk.rule(
+        "R08.h",
+        "union decomposition is requested only for arguments that can be put back: in Signature.check_call_with_bound_args the remainder of a partially matched union is written "
+        "back into the positionals (position is an int) or the keywords (a str) and anything else is a failing default (`assert False`); the `is_overload=` gate passed to "
+        "_check_param_type_compatibility - the only way a remainder is produced - admits exactly those positions (`isinstance(position, (int, str))`): an argument taken from "
+        "*args / **kwargs carries a marker object, not None",
+        floor=2,
+    )
+    found = prog.find_method("Signature", "check_call_with_bound_args")
+    if found is None:
+        raise AnchorError("Signature.check_call_with_bound_args not found")
+    fn = found[1]
+    site_mod = "signature"
+    gate = None
+    for call in walk_no_nested(fn):
+        if isinstance(call, ast.Call) and last_attr(call.func) == "_check_param_type_compatibility" and kw(call, "is_overload") is not None:
+            gate = kw(call, "is_overload")
+    if gate is None:
+        raise AnchorError("check_call_with_bound_args: no _check_param_type_compatibility(..., is_overload=...) call")
+
+    def isinstance_types(test: ast.AST, subject: str) -> Optional[Set[str]]:
+        out: Set[str] = set()
+        hit = False
+        for n in ast.walk(test):
+            if isinstance(n, ast.Call) and isinstance(n.func, ast.Name) and n.func.id == "isinstance" and len(n.args) == 2 and norm(n.args[0]) == subject:
+                hit = True
+                t = n.args[1]
+                out |= {norm(e) for e in (t.elts if isinstance(t, ast.Tuple) else [t])}
+        return out if hit else None
+
+    # the chain that puts the remainder back
+    arms: Set[str] = set()
+    failing_default = False
+    subject = None
+    for node in walk_no_nested(fn):
+        if isinstance(node, ast.If) and "remaining_value is not None" in norm(node.test):
+            cur: Optional[ast.stmt] = node.body[0] if node.body else None
+            while isinstance(cur, ast.If):
+                for n in ast.walk(cur.test):
+                    if isinstance(n, ast.Call) and isinstance(n.func, ast.Name) and n.func.id == "isinstance" and len(n.args) == 2:
+                        subject = norm(n.args[0])
+                        t = n.args[1]
+                        arms |= {norm(e) for e in (t.elts if isinstance(t, ast.Tuple) else [t])}
+                if cur.orelse and not isinstance(cur.orelse[0], ast.If):
+                    failing_default = any(isinstance(s, ast.Assert) or isinstance(s, ast.Raise) for s in cur.orelse)
+                cur = cur.orelse[0] if cur.orelse else None
+    if subject is None or not arms:
+        raise AnchorError("check_call_with_bound_args: the isinstance chain that writes the remainder back was not found")
+    gate_types = isinstance_types(gate, subject)
+    site = prog.site(site_mod, gate)
+    chk.ob("R08.h", "signature::Signature.check_call_with_bound_args::remainder-chain-found", True, site, f"arms handle {sorted(arms)}; failing default: {failing_default}")
+    chk.ob(
+        "R08.h",
+        "signature::Signature.check_call_with_bound_args::is_overload-gate-admits-only-handled-positions",
+        gate_types is not None and gate_types <= arms,
+        site,
+        f"`is_overload={norm(gate)[:80]}` lets a remainder be produced for positions other than {sorted(arms)} (the arms that can put it back); for an argument from *args / **kwargs the chain falls into its failing default: internal_error",
+    )
